@@ -498,7 +498,7 @@ SETOP_TAILS = [[]] + [list(x) for r in (1, 2, 3) for x in itertools.permutations
 def setop_cases():
     for cls in CTXS:
         for op in SETOPS:
-            for optail in (0, 1, 2, 3, 4):
+            for optail in (0, 1, 2, 3, 4, 5):
                 for tail in SETOP_TAILS:
                     yield {"family": "setop", "cls": cls, "op": op, "optail": optail, "tail": tail}
 
@@ -547,6 +547,9 @@ def setop_program(case, tail):
     if case["optail"] == 3:
         steps.append(["offset", [["raw", 4]]])
     other = {"cls": "inherit", "sources": {}, "steps": [["from_", [["src", "U"]]], ["select", [["col", "U", "a"]]]]}
+    if case["optail"] == 5:
+        # the SECOND operand brings a WITH clause of its own: it must stay one unit, or WITH would stand in the middle of the compound
+        other = {"cls": "inherit", "sources": {}, "steps": [["with_", [["q", other], ["py", "c9"]]], ["from_", [["cte", "c9"]]], ["select", [["py", "a"]]]]}
     steps.append([case["op"], [["q", other]]])
     for m in tail:
         steps.append({"orderby": ["orderby", [A]], "limit": ["limit", [["raw", 7]]], "offset": ["offset", [["raw", 2]]]}[m])
@@ -682,7 +685,7 @@ def valid_case(case):
         if case.get("family") == "setop_incomplete":
             return case in list(incomplete_setop_cases())
         if case.get("family") == "setop":
-            return case["cls"] in CTXS and case["op"] in SETOPS and case["optail"] in (0, 1, 2, 3, 4) and case["tail"] in SETOP_TAILS
+            return case["cls"] in CTXS and case["op"] in SETOPS and case["optail"] in (0, 1, 2, 3, 4, 5) and case["tail"] in SETOP_TAILS
         p = case["program"]
         n = len(p["steps"])
         if '["tbl", null' in json.dumps(p) or '"tbl", ""' in json.dumps(p):
